@@ -11,31 +11,26 @@ package quantity
 
 //@ func isValid
 //@   props C05 C15
-//@   requires n != nil
 //@   modifies nothing
 //@   ensures result == (bigval(n) >= 0)
 
 //@ func Quantity.IsValid
 //@   props C05 C15
-//@   requires q != nil
 //@   modifies nothing
 //@   ensures result == (Val(q) >= 0)
 
 //@ func Quantity.IsZero
 //@   props C05 C15
-//@   requires q != nil
 //@   modifies nothing
 //@   ensures result == (Val(q) == 0)
 
 //@ func Quantity.Cmp
 //@   props C05 C15
-//@   requires q != nil && n != nil
 //@   modifies nothing
 //@   ensures result == ite(Val(q) < Val(n), -1, ite(Val(q) == Val(n), 0, 1))
 
 //@ func Quantity.Clone
 //@   props C05 C15
-//@   requires q != nil
 //@   modifies nothing
 //@   ensures fresh(result) && Val(result) == Val(q)
 
@@ -46,20 +41,17 @@ package quantity
 
 //@ func Quantity.FromBigInt
 //@   props C05 C15
-//@   requires q != nil
 //@   modifies q
 //@   ensures (n == nil || old(bigval(n)) < 0) ==> err == ErrInvalidQuantity && Val(q) == old(Val(q))
 //@   ensures n != nil && old(bigval(n)) >= 0 ==> err == nil && Val(q) == old(bigval(n))
 
 //@ func Quantity.FromUint64
 //@   props C05 C15
-//@   requires q != nil
 //@   modifies q
 //@   ensures err == nil && Val(q) == int(n)
 
 //@ func Quantity.FromInt64
 //@   props C05 C15
-//@   requires q != nil
 //@   modifies q
 //@   ensures n < 0 ==> err == ErrInvalidQuantity && Val(q) == old(Val(q))
 //@   ensures n >= 0 ==> err == nil && Val(q) == int(n)
@@ -72,20 +64,17 @@ package quantity
 
 //@ func Quantity.ToBigInt
 //@   props C05 C15
-//@   requires q != nil
 //@   modifies nothing
 //@   ensures fresh(result) && bigval(result) == Val(q)
 
 //@ func Quantity.Add
 //@   props C05 C15
-//@   requires q != nil
 //@   modifies q
 //@   ensures (n == nil || old(Val(n)) < 0) ==> err == ErrInvalidQuantity && Val(q) == old(Val(q))
 //@   ensures n != nil && old(Val(n)) >= 0 ==> err == nil && Val(q) == old(Val(q)) + old(Val(n))
 
 //@ func Quantity.Sub
 //@   props C05 C15
-//@   requires q != nil
 //@   modifies q
 //@   ensures (n == nil || old(Val(n)) < 0) ==> err == ErrInvalidQuantity && Val(q) == old(Val(q))
 //@   ensures n != nil && old(Val(n)) >= 0 && old(Val(q)) < old(Val(n)) ==> err == ErrInsufficientBalance && Val(q) == old(Val(q))
@@ -93,14 +82,12 @@ package quantity
 
 //@ func Quantity.SubUpTo
 //@   props C05 C15
-//@   requires q != nil
 //@   modifies q
 //@   ensures (n == nil || old(Val(n)) < 0) ==> err == ErrInvalidQuantity && result0 == nil && Val(q) == old(Val(q))
 //@   ensures n != nil && old(Val(n)) >= 0 ==> err == nil && fresh(result0) && Val(result0) == min(old(Val(q)), old(Val(n))) && Val(q) == old(Val(q)) - Val(result0)
 
 //@ func Quantity.Mul
 //@   props C05 C15
-//@   requires q != nil
 //@   modifies q
 //@   ensures (n == nil || old(Val(n)) < 0) ==> err == ErrInvalidQuantity && Val(q) == old(Val(q))
 //@   ensures n != nil && old(Val(n)) >= 0 ==> err == nil && Val(q) == old(Val(q)) * old(Val(n))
@@ -108,7 +95,6 @@ package quantity
 //@ func Quantity.Quo
 //@   props C05 C15
 //@   safety div
-//@   requires q != nil
 //@   modifies q
 //@   ensures (n == nil || old(Val(n)) <= 0) ==> err == ErrInvalidQuantity && Val(q) == old(Val(q))
 //@   ensures n != nil && old(Val(n)) > 0 ==> err == nil && Val(q) == div(old(Val(q)), old(Val(n)))
